@@ -3,6 +3,8 @@
   - it asks the iterator for `remainder()` / `into_remainder()`, or
   - the slice it iterates comes from a `split_at(len / n * n)` (the tail is the other half), or
   - it tests `len % n` against 0 (the input is refused or known to be a multiple).
+Byte buffers (`&[u8]`) cut into fixed-size records are out of scope: their length is a multiple of the record size by
+construction, and reporting them would be a false alarm on a harmless `chunks_exact(ENTRY_SIZE)`.
 """
 from vlib.mir import Fn, op_local, op_const, op_place
 
@@ -20,6 +22,11 @@ def run(ctx, fx, files, rule="R-REMAINDER"):
                     continue
                 rem_calls = [c for b, c in fn.calls() if c["f"].endswith("::remainder") or c["f"].endswith("::into_remainder")]
                 for b, c in ces:
+                    # byte buffers cut into fixed-size records (entry tables, serialised words) are a multiple of the record
+                    # size by construction: the rule is about scans over the *values* (element type wider than a byte)
+                    r0 = op_local(c["a"][0]) if c["a"] else None
+                    if r0 is not None and ("[u8]" in fn.ty(r0) or "Vec<u8>" in fn.ty(r0)):
+                        continue
                     n += 1
                     ctx.analysed_fns.add(fid)
                     d = c["d"][0]
